@@ -598,7 +598,8 @@ example : (ctorKeys cEx, genericKeys cEx, inheritanceKeys cEx) =
 
 /-- the same class with a keyword-named constructor type variable and a keyword-named superclass: the
     names are back-quoted in the generics, the parameter type and the superclass list; the two marker
-    blocks are unchanged -/
+    blocks are unchanged (the generics of the class are scoped to it: afterwards `classGenerics` is again
+    what it was before, here `[]`) -/
 private def cKwInit : Function :=
   { cExInit with
     typeVars := [{ name := "from", upperBound := none }],
@@ -616,7 +617,7 @@ example : (match createClassString ⟨{}, true⟩ 3 cKw "" false {} with
     | .error _ => ("", [], [])) =
     ("// TODO Safe-DS does not support required but name only parameter assignments.\n" ++
      "// TODO Safe-DS does not support multiple inheritance.\n" ++
-     "class C<`from`>(\n    x: `from`\n) sub A, `in`", [], ["`from`"]) := by decide
+     "class C<`from`>(\n    x: `from`\n) sub A, `in`", [], []) := by decide
 example : publicSuperNames cKw.superclasses = ["A", "`in`"] := by decide
 example : (ctorKeys cKw, genericKeys cKw, inheritanceKeys cKw) =
     (["REQ_NAME_ONLY"], [], ["multiple_inheritance"]) := by decide
